@@ -473,6 +473,18 @@ func applyWith(e *slog.Entry, s SetOp) *slog.Entry {
 	return nil
 }
 
+// treeName: the name of code k.  Names are plain data to the library: some end in a per cent sign or hold what
+// looks like a formatting verb (a logger named after a metric: "cpu%", "load %-5")
+func treeName(k int) string {
+	switch k % 3 {
+	case 1:
+		return fmt.Sprintf("n%d%%", k)
+	case 2:
+		return fmt.Sprintf("n%d %%-5", k)
+	}
+	return fmt.Sprintf("n%d", k)
+}
+
 // Exec runs one op and returns the index of the logger it returned (-1: none).
 func (t *TreeExec) Exec(o Op) int {
 	newArgs := func() []any {
@@ -480,7 +492,7 @@ func (t *TreeExec) Exec(o Op) int {
 		if o.Name != nil && *o.Name == 0 {
 			args = append(args, "")
 		} else if o.Name != nil {
-			args = append(args, fmt.Sprintf("n%d", *o.Name))
+			args = append(args, treeName(*o.Name))
 		}
 		for _, s := range o.Opts {
 			args = append(args, setOpt(s))
